@@ -192,8 +192,8 @@ fn level_helpers(rep: &mut Report) {
     }
 }
 
-fn index_ctors(rep: &mut Report) {
-    for x in 0..=u16::MAX {
+fn index_ctors(rep: &mut Report, sw0: usize, sw: usize) {
+    for x in (0..=u16::MAX).skip(sw0).step_by(sw) {
         rep.evals(4);
         match catch(|| PageTableIndex::new(x)) {
             Ok(i) => {
@@ -262,7 +262,9 @@ fn index_ctors(rep: &mut Report) {
         }
     }
     rep.class("index|stepping-stays-in-range");
-    rep.exhaustive.push("all u16 for PageTableIndex::{new,new_truncate}, PageOffset::{new,new_truncate}".into());
+    if sw == 1 {
+        rep.exhaustive.push("all u16 for PageTableIndex::{new,new_truncate}, PageOffset::{new,new_truncate}".into());
+    }
 }
 
 /// every function of this property answers for every input of its domain: a panic anywhere in the sweep is a finding
@@ -277,22 +279,26 @@ fn run_inner(a: &Args, rep: &mut Report) {
     let mut r = Rng::derive(a.seed, "c04", a.shard);
     if a.shard == 0 {
         level_helpers(rep);
-        index_ctors(rep);
+        let (sw0, sw) = a.sweep();
+        index_ctors(rep, sw0, sw);
     }
+    let (sw0, sw) = a.sweep();
     // --- exhaustive 1 GiB tuples (512^2), sharded by p4
-    for p4 in 0..512u16 {
+    for p4 in (0..512u16).skip(sw0).step_by(sw) {
         if (p4 as u64) % a.nshards != a.shard {
             continue;
         }
-        for p3 in 0..512u16 {
+        for p3 in (0..512u16).skip(sw0).step_by(sw) {
             inv_1g(rep, p4, p3);
         }
-        rep.evals(512);
+        rep.evals(512 / sw as u64);
     }
-    rep.exhaustive.push("all 512^2 (p4,p3) for from_page_table_indices_1gib".into());
+    if sw == 1 {
+        rep.exhaustive.push("all 512^2 (p4,p3) for from_page_table_indices_1gib".into());
+    }
     rep.class("inv|1G|exhaustive");
     // --- 2 MiB tuples: thorough = all 512^3, quick = 512 x 64 x 64 stride + edges
-    if a.thorough() {
+    if a.thorough() && sw == 1 {
         for p4 in 0..512u16 {
             if (p4 as u64) % a.nshards != a.shard {
                 continue;
@@ -306,12 +312,12 @@ fn run_inner(a: &Args, rep: &mut Report) {
         }
         rep.exhaustive.push("all 512^3 (p4,p3,p2) for from_page_table_indices_2mib".into());
     } else {
-        for p4 in 0..512u16 {
+        for p4 in (0..512u16).skip(sw0).step_by(sw) {
             if (p4 as u64) % a.nshards != a.shard {
                 continue;
             }
-            for a3 in 0..64u16 {
-                for a2 in 0..64u16 {
+            for a3 in (0..64u16).skip(sw0 % 7).step_by(if sw == 1 { 1 } else { 7 }) {
+                for a2 in (0..64u16).skip(sw0 % 5).step_by(if sw == 1 { 1 } else { 5 }) {
                     let p3 = (a3 * 8 + (p4 & 7)) & 511;
                     let p2 = (a2 * 8 + ((p4 >> 3) & 7)) & 511;
                     inv_2m(rep, p4, p3, p2);
@@ -324,7 +330,7 @@ fn run_inner(a: &Args, rep: &mut Report) {
     // --- 4 KiB: every index exhaustively with the other three from the collision universe
     let uni = gen::IDX_UNIVERSE;
     for pos in 0..4 {
-        for v in 0..512u16 {
+        for v in (0..512u16).skip(sw0).step_by(sw) {
             if (v as u64) % a.nshards != a.shard {
                 continue;
             }
@@ -345,7 +351,9 @@ fn run_inner(a: &Args, rep: &mut Report) {
         }
         rep.class(&format!("inv|4K|pos{}-exhaustive", pos));
     }
-    rep.exhaustive.push("4K: each index position over all 512 values x 8^3 universe of the others".into());
+    if sw == 1 {
+        rep.exhaustive.push("4K: each index position over all 512 values x 8^3 universe of the others".into());
+    }
     let n = a.budget(1_000_000, 200_000_000);
     for _ in 0..n {
         let x = r.next();
